@@ -109,7 +109,10 @@ def replay(run, cmd, cases, label, idle_timeout=8.0):
 def validate_traces(run, module, consts, invariants, trace_files, label, nproc=8, timeout=900, site_of=None):
     d = workdir("cfg-" + label)
     cfg = os.path.join(d, label + ".cfg")
-    write_cfg(cfg, consts, "TSpec", ["Done"] + list(invariants))
+    if module == "VmHeapTrace.tla":
+        open(cfg, "w").write("SPECIFICATION Spec\nINVARIANTS AllDone " + " ".join(invariants) + "\nCHECK_DEADLOCK FALSE\n")
+    else:
+        write_cfg(cfg, consts, "TSpec", ["Done"] + list(invariants))
 
     def job(tf, i):
         return lambda: tlc_trace(os.path.join(SPEC, module), cfg, tf, name="%s-%d" % (label, i), timeout=timeout)
